@@ -40,7 +40,9 @@ def ace(x):
 
 def _strip(d):
     if isinstance(d, dict):
-        return {k: _strip(v) for k, v in d.items() if k != "uuid"}
+        # a block's own number is compared on its own (clause C16.copy-block-number-differs), not inside the digest
+        drop = {"uuid", "sequence"} if ("items" in d and "group_by" in d) else {"uuid"}
+        return {k: _strip(v) for k, v in d.items() if k not in drop}
     if isinstance(d, (list, tuple)):
         return [_strip(v) for v in d]
     return d
